@@ -42,8 +42,10 @@ def make_scratch(repo, workdir):
     for fn in os.listdir(KANI_DIR):
         if fn.endswith('.rs'):
             shutil.copy(os.path.join(KANI_DIR, fn), os.path.join(src, fn))
-    with open(os.path.join(src, 'lib.rs'), 'a') as f:
-        f.write('\n#[cfg(kani)]\nmod kverif;\n')
+    lib = open(os.path.join(src, 'lib.rs')).read()
+    with open(os.path.join(src, 'lib.rs'), 'w') as f:
+        # (stacked #[kani::stub] attributes inside macro_rules need a larger expansion limit)
+        f.write('#![cfg_attr(kani, recursion_limit = "1024")]\n' + lib + '\n#[cfg(kani)]\nmod kverif;\n')
     if os.path.exists(os.path.join(KANI_DIR, 'kformat.rs')):
         with open(os.path.join(src, 'format.rs'), 'a') as f:
             f.write('\n#[cfg(kani)]\n#[path = "kformat.rs"]\nmod kformat;\n')
